@@ -18,7 +18,7 @@ pub fn def() -> PropDef {
         streams,
         run,
         floors,
-        rule: "hide(a,s,rv,lp,ap).value is compared octet for octet with the reference construction (own MD5, RFC 1321 vectors checked first): size 16*ceil((2+|payload|+|lp|)/16), attribute type preserved, H bit and clear type on the wire, independence from the unused tail of the alignment padding and from call history; reveal(h,s,rv) is compared with the reference reveal on arbitrary hidden values incl. wrong keys (Ok value / Err-ness). Cases as C11 (block counts 1..63, all residues, secret lengths straddling MD5 padding). Distinct = distinct (value, secret, rv, lp, ap); non-trivial = every hide case; reveal cases whose value is a positive multiple of 16 octets.",
+        rule: "hide(a,s,rv,lp,ap).value is compared octet for octet with the reference construction (own MD5, RFC 1321 vectors checked first): size 16*ceil((2+|payload|+|lp|)/16), attribute type preserved, H bit and clear type on the wire, independence from the unused tail of the alignment padding and from call history; reveal(h,s,rv) is compared with the reference reveal on arbitrary hidden values incl. wrong keys (Ok value / Err-ness). Cases as C11 (block counts 1..63, all residues, secret lengths straddling MD5 padding). Distinct = distinct (value, secret, rv, lp, ap); non-trivial = every hide case; reveal cases whose value is a positive multiple of 16 octets. Also: values of 2^12..2^16 blocks (length padding up to 1 MiB) and the reference's own giant values revealed by the crate.",
     }
 }
 
